@@ -27,6 +27,12 @@ def conditions(tier: str) -> list[core.Cond]:
                             continue
                         conds.append(core.Cond(f"history {hist} buffer={buf} placement={late}", HARNESS, "check",
                                                {"history": hist, "buf": buf, "batch": 2, "late": late}, tmo))
+    # a run whose lazy output is never read (the otel2pv command without --save-events), followed by ordinary runs
+    for first in ([1, 1, 0], [1, 0, 0]):
+        for second in runs:
+            hist = [first, list(second)] if tier == "quick" else [[1, 1], first[:2] + [0], list(second)]
+            conds.append(core.Cond(f"history {hist} (third flag 0 = output not read) buffer=1 placement=0", HARNESS, "check",
+                                   {"history": hist, "buf": 1, "batch": 2, "late": 0}, tmo))
     conds.append(core.Cond("twin", HARNESS, "twin", {"history": [[1, 1]], "buf": 1, "batch": 2, "late": 0}, tmo, expect_violation=True))
     return conds
 
